@@ -253,6 +253,17 @@ func extra6C17(c *Ctx) {
 	c.Rule(rule, "what was decoded is kept when the text stops short: in parseObjects every test for io.EOF / io.ErrUnexpectedEOF on the decoder's error leads, on its true edge, only to returns of the list the loop appends to — and the unexpected-EOF case is tested — so a complete tool call followed by one cut off by the token limit is found whether the text arrives whole (non-streamed) or the first call's last byte ends a chunk (streamed); returning nil there makes the two paths, and different splits of one output, disagree")
 	if f := c.Fn(rule, "server", "parseObjects"); f != nil {
 		info := f.Info()
+		// parseObjects may be a wrapper around the function that holds the decode loop (it returns that
+		// function's first result): the loop is what the rule is about
+		if len(core.CallsTo(info, f.Body, true, "builtin.append")) == 0 {
+			for _, call := range core.Calls(f.Body, false) {
+				if callee := funcByObj(c, f.Pkg.PkgPath, core.Callee(info, call)); callee != nil && len(core.CallsTo(callee.Info(), callee.Body, true, "builtin.append")) > 0 {
+					f = callee
+					info = f.Info()
+					break
+				}
+			}
+		}
 		g := c.G(f)
 		// the accumulating list: the variable assigned from append(itself, …)
 		var list types.Object
@@ -319,7 +330,10 @@ func extra6C17(c *Ctx) {
 			g.Walk(core.StartOf(cb.B.Succs[0]), func(m ast.Node, l core.Loc) bool {
 				if ret, isR := m.(*ast.ReturnStmt); isR {
 					reached++
-					if len(ret.Results) != 1 || !isIdentOf(info, ret.Results[0], list) {
+					if len(ret.Results) == 0 && f.Type.Results != nil && len(f.Type.Results.List) > 0 && len(f.Type.Results.List[0].Names) > 0 && info.Defs[f.Type.Results.List[0].Names[0]] == list {
+						return true // naked return of the named result that is the list
+					}
+					if len(ret.Results) < 1 || !isIdentOf(info, ret.Results[0], list) {
 						bad = "return at " + c.Pos(ret) + " drops the objects decoded so far"
 					}
 					return true
